@@ -464,6 +464,7 @@ int verif_poll(struct pollfd *fds, nfds_t nfds, int timeout)
   g.poll_at = g.now;
   g.poll_fds = 0;
   g.poll_ready = 0;
+  g.poll_nfds = nfds;
   if (timeout != 0) {
     g.may_block = true;
   }
@@ -498,6 +499,11 @@ int verif_poll(struct pollfd *fds, nfds_t nfds, int timeout)
       }
     }
     fds[i].revents = re;
+    if (i < 12) {
+      g.poll_fdv[i] = fd;
+      g.poll_evv[i] = fds[i].events;
+      g.poll_rev[i] = re;
+    }
     if (re != 0) {
       count++;
     }
